@@ -276,6 +276,45 @@ func genFloatsOrder(g *vlib.G) {
 		})
 	}
 
+	// ---- MaxIdx / MinIdx / Max / Min with pairs of special values at all pairs of positions ----
+	for _, n := range []int{8, 9, 17} {
+		n := n
+		g.Case(fmt.Sprintf("MaxIdx/MinIdx special pairs n=%d", n), func(t *vlib.T) {
+			sv := []float64{pinf, ninf, nan, negz, 0x1p1000, -0x1p1000}
+			cnt := 0
+			for _, a := range sv {
+				for _, b := range sv {
+					for i := 0; i < n; i++ {
+						for j := i + 1; j < n; j++ {
+							s := make([]float64, n)
+							for k := range s {
+								s[k] = float64((k*5+n)%7 - 3)
+							}
+							s[i], s[j] = a, b
+							cnt++
+							for _, max := range []bool{true, false} {
+								var got int
+								var val float64
+								if max {
+									got, val = floats.MaxIdx(s), floats.Max(s)
+								} else {
+									got, val = floats.MinIdx(s), floats.Min(s)
+								}
+								if want := extremeIdx(s, max); got != want || !(val == s[want]) {
+									t.Failf("max=%v idx(%s)=%d value %v want index %d", max, fstr(s), got, val, want)
+									return
+								}
+							}
+						}
+					}
+				}
+			}
+			t.Count("sequences", int64(cnt))
+			t.Nontrivial()
+			t.Outcome("extremes-pairs")
+		})
+	}
+
 	// ---- NearestIdx ----
 	vs := []float64{ninf, -2, -1, -0.25, 0, 0.25, 0.5, 0.75, 1, 3, pinf, nan}
 	for n := 0; n <= 4; n++ {
@@ -698,6 +737,37 @@ func genFloatsWithin(g *vlib.G) {
 }
 
 func genFloatsLogSumExp(g *vlib.G) {
+	// pairs of infinities at all pairs of positions: a +Inf element gives +Inf, a -Inf element contributes nothing
+	for _, n := range []int{2, 3, 5, 8, 9, 17} {
+		n := n
+		g.Case(fmt.Sprintf("LogSumExp infinite pairs n=%d", n), func(t *vlib.T) {
+			for _, a := range []float64{pinf, ninf} {
+				for _, b := range []float64{pinf, ninf} {
+					for i := 0; i < n; i++ {
+						for j := i + 1; j < n; j++ {
+							s := make([]float64, n)
+							naive := 0.0
+							for k := range s {
+								s[k] = float64((k*5+n)%9-4) / 2
+							}
+							s[i], s[j] = a, b
+							for _, v := range s {
+								naive += math.Exp(v) // exp(-Inf) = 0, exp(+Inf) = +Inf
+							}
+							want := math.Log(naive) // log(0) = -Inf for n == 2 with two -Inf
+							got := floats.LogSumExp(s)
+							if !(got == want) && !(math.Abs(got-want) <= 1e-12*math.Max(1, math.Abs(want))) {
+								t.Failf("LogSumExp(%s)=%v want %v", fstr(s), got, want)
+								return
+							}
+						}
+					}
+				}
+			}
+			t.Nontrivial()
+			t.Outcome("logsumexp-pairs")
+		})
+	}
 	// ---- LogSumExp ----
 	for n := 0; n <= vlib.Pick(g, 40, 70); n++ {
 		n := n
